@@ -67,8 +67,10 @@ func zzApply(ctx *app.RequestContext, p *zzProg) {
 		}
 	case 7:
 		ctx.AbortWithMsg(string(b), p.status)
+		ctx.Response.Header.SetNoDefaultDate(true) // Reset re-enabled the (time-dependent) Date header
 	case 8:
 		ctx.NotFound()
+		ctx.Response.Header.SetNoDefaultDate(true)
 	}
 	if !p.first && p.mode < 7 {
 		ctx.SetStatusCode(p.status)
